@@ -267,6 +267,25 @@ def safe_repr(x):
             return "<unprintable case>"
 
 
+_MARK_FD = None
+
+
+def _mark(name, case, index):
+    """which case is being evaluated, kept in a small file: read by the checker when this process is ended by a signal
+    raised in native code (the case is then reported, not lost)"""
+    if _MARK_FD is None:
+        return
+    try:
+        key = case.get("key")
+        if key is None:
+            key = safe_repr((case.get("args"), case.get("kwargs")))
+        data = json.dumps(dict(contract=name, case_key=str(key)[:2000], index=index)).encode()
+        os.ftruncate(_MARK_FD, 0)
+        os.pwrite(_MARK_FD, data, 0)
+    except Exception:
+        pass
+
+
 def run_contract(name, tier, seed, limit_s, extra_cases=None):
     c = speclang.CONTRACTS[name]
     glob = spec_globals()
@@ -312,6 +331,7 @@ def run_contract(name, tier, seed, limit_s, extra_cases=None):
                         revisit.append(keep)
                 except Exception:
                     pass
+            _mark(name, case, out["cases"])
             try:
                 status, detail = run_case(c, fn, case, glob)
             except Exception as e:
@@ -364,6 +384,13 @@ def main(argv):
     ap.add_argument("--limit", type=float, default=60.0)
     ap.add_argument("--cases", default=None, help="json file with extra cases per contract (replay / counter-models)")
     a = ap.parse_args(argv)
+    import faulthandler
+    faulthandler.enable()
+    global _MARK_FD
+    try:
+        _MARK_FD = os.open(a.out + ".current", os.O_RDWR | os.O_CREAT | os.O_TRUNC, 0o644)
+    except OSError:
+        _MARK_FD = None
     speclang.load_specs()
     names = [n for n in a.contracts.split(",") if n]
     if a.prop:
@@ -379,6 +406,7 @@ def main(argv):
         ex = [dict(args=e.get("args", []), kwargs=e.get("kwargs", {}), key=e.get("key"), sig=e.get("sig")) for e in extra.get(n, [])]
         ex = [decode_case(e) for e in ex]
         res.append(run_contract(n, a.tier, a.seed, a.limit, ex))
+        json.dump(res, open(a.out + ".partial", "w"), default=str)
     json.dump(res, open(a.out, "w"), indent=1, default=str)
     return 0
 
